@@ -1,7 +1,7 @@
 (* C16 — allocated pids and references are unique.  Only property theorems here. *)
 From EDP Require Import Base.Bytes Gen.PidConsts Gen.LockScope Dist.PidAlloc Dist.PidAllocFacts Conc.Interleave Conc.AllocConc.
 From EDP Require Codec.Decode Node.Node Node.CreationFacts Node.OwnIdFacts.
-From EDP Require Conc.RefConc.
+From EDP Require Conc.RefConc Dist.StartFacts.
 
 (* Any number k <= MAX_PROCESSES_PER_NODE * 2^32 (= 2^52 on the pinned tree) of consecutive allocations,
    started from ANY valid counter position (any id in 1..MAX incl. the wrap point, any serial below 2^63,
@@ -46,6 +46,22 @@ Theorem C16_live_processes_have_own_identifiers : forall name c cfg conn ops x,
   In x (Node.n_procs (Node.run cfg (Node.node_init name c conn) ops)) ->
   Term.pnode (Node.pp x) = name /\ Term.pcreation (Node.pp x) = c.
 Proof. exact OwnIdFacts.live_processes_have_own_identifiers. Qed.
+
+(* Node::start sets the creation of the allocator the node already has: identifiers handed out before it (reply addresses
+   of calls made on a node not yet started) and after it are numbered by one sequence — all j + k numbers (id, serial)
+   differ, whatever creation the port mapper hands out, the placeholder included — and those after it carry that creation *)
+Theorem C16_start_keeps_the_numbering : forall j k c st, wf st -> N.of_nat (j + k) <= M * two32 ->
+  NoDup (map StartFacts.num (allocs j st ++ allocs k (StartFacts.set_creation c (after j st)))).
+Proof. exact StartFacts.start_keeps_the_numbering. Qed.
+
+Theorem C16_after_start_creation : forall j k c st p,
+  In p (allocs k (StartFacts.set_creation c (after j st))) -> p_creation p = c.
+Proof. exact StartFacts.after_start_creation. Qed.
+
+Example C16_start_example :
+  let st0 := {| next_id := initial_next_id; next_serial := 0; creation := 1 |} in
+  wf st0 /\ map StartFacts.num (allocs 2 st0 ++ allocs 2 (StartFacts.set_creation 1 (after 2 st0))) = [(1, 0); (2, 0); (3, 0); (4, 0)].
+Proof. cbv zeta. split; [unfold wf, M; vm_compute; repeat split; discriminate|vm_compute; reflexivity]. Qed.
 
 Theorem C16_refs_unique : forall k c, c < two32 -> 3 * N.of_nat k <= two32 -> NoDup (refs k c).
 Proof. exact refs_nodup. Qed.
